@@ -35,12 +35,12 @@ namespace verif
         use_raw(tr, p, n); use_comp(tr, p, n);
         sg.allocate_node(n, n); sg.allocate_array(n, n, n); sg.deallocate_node(p, n, n); sg.deallocate_array(p, n, n, n); sg.max_node_size(); sg.max_array_size();
         use_raw(fb, p, n); use_comp(fb, p, n);
-        use_raw(lk, p, n); use_comp(lk, p, n); { auto l = lk.lock(); l->allocate_node(n, n); }
+        use_raw(lk, p, n); use_comp(lk, p, n); { auto l = lk.lock(); l->allocate_node(n, n); auto l2 = std::move(l); }
         use_raw(rs, p, n); use_comp(rs, p, n);
         long* q = sa.allocate(n); sa.deallocate(q, n); (void)(sa == sb); (void)(sa != sb);
         stdalloc2 conv(sa); stdalloc sel = sa.select_on_container_copy_construction(); sa.get_allocator();
         stdalloc made(ra);
         allocator_deallocator<long, raw_alloc> d1{allocator_reference<raw_alloc>(ra)}; d1(q);
-        allocator_deallocator<long[], raw_alloc> d2{allocator_reference<raw_alloc>(ra), n}; d2(q);
+        allocator_deallocator<int[], raw_alloc> d2{allocator_reference<raw_alloc>(ra), n}; d2((int*)p);
     }
 } // namespace verif
